@@ -180,7 +180,7 @@ def run(ctx):
 
 def run_(ctx):
     rng = gen.rng_for(ctx.seed, 'c08')
-    for k in range(45 if ctx.quick else 900):
+    for k in range(ctx.n(45, 900)):
         one(ctx, rng, k)
 
 
